@@ -509,6 +509,12 @@ fn dir_in_the_way(c: &Case, clean: &RunObs, unit: usize, out: &mut Out) {
         // (C19), and outside what this property promises
         .filter(|n| !n.contains(".restart-") && !matches!(c.cfg.naming(), Some(NamingK::Numbers | NamingK::NumbersDirect) | None))
         .collect();
+    let mut targets = targets;
+    // with a direct naming nothing of the logger's is called rCURRENT: a directory of that name is
+    // foreign, and no selector may list it
+    if c.cfg.naming().is_some_and(NamingK::direct) && c.cfg.parts.suffix.as_deref() == Some("log") && c.cfg.parts.basename.as_deref() == Some("app") && c.cfg.parts.discriminant.is_none() && !c.cfg.parts.use_timestamp {
+        targets.push("app_rCURRENT.log".to_string());
+    }
     for t in targets {
         let name: &'static str = Box::leak(t.clone().into_boxed_str());
         let case = json!({"unit": unit, "dir_in_the_way": t});
@@ -543,6 +549,10 @@ fn judge_dir(c: &Case, name: &'static str, clean: &RunObs, case: Value) -> Optio
                 return Some(Violation::new("errors-differ", key, format!("{ctx}: error channel clean {:?}, with the directory {:?}", clean.errs, pop.errs), case));
             }
             let cat = |o: &RunObs| o.family.iter().filter(|f| !f.0.ends_with(".gz")).flat_map(|f| f.1.clone()).collect::<Vec<u8>>();
+            if name.contains("rCURRENT") && pop.listings != clean.listings {
+                let i = pop.listings.iter().zip(clean.listings.iter()).position(|(a, b)| a != b).unwrap_or(0);
+                return Some(Violation::new("listing-differs", key, format!("{ctx}: existing_log_files query #{i}: clean {:?}, with the directory {:?}", clean.listings.get(i), pop.listings.get(i)), case));
+            }
             if clean.family.len() != pop.family.len() || cat(clean) != cat(&pop) {
                 return Some(Violation::new(
                     "family-differs",
